@@ -16,9 +16,9 @@ EXC = "TypeTranslationError"
 SEED = {"expr_to_unanalyzed_type"}
 
 
-def _functions():
+def _functions(files=None):
     out = []
-    for rel in FILES:
+    for rel in files or FILES:
         p = os.path.join(REPO, rel)
         if not os.path.exists(p):
             continue
@@ -33,14 +33,14 @@ def _functions():
     return out
 
 
-def _protected(call, fn, parents):
+def _protected(call, fn, parents, exc=EXC):
     cur = call
     while cur is not fn and cur in parents:
         p = parents[cur]
         if isinstance(p, ast.Try) and any(cur is b or _contains(b, cur) for b in p.body):
             for h in p.handlers:
                 t = ast.unparse(h.type) if h.type else ""
-                if EXC in t or t in ("Exception", "BaseException", ""):
+                if exc in t or t in ("Exception", "BaseException", ""):
                     return True
         cur = p
     return False
@@ -55,15 +55,23 @@ def _callee_name(call):
     return f.id if isinstance(f, ast.Name) else f.attr if isinstance(f, ast.Attribute) else None
 
 
-def scan():
+def scan(exc=EXC, seed=None, files=None):
     """-> (functions_seen, F: {name: [(file, line of an unprotected call, callee)]})"""
-    fns = _functions()
-    F = {n: [] for n in SEED}
+    fns = _functions(files)
+    seed = set(seed) if seed is not None else set(SEED)
+    if seed is not SEED and not seed:
+        # seeds: the functions that raise the exception themselves, outside a handler for it
+        for rel, fn, parents in fns:
+            for r in ast.walk(fn):
+                if isinstance(r, ast.Raise) and r.exc is not None and exc in ast.unparse(r.exc) and not _protected(r, fn, parents, exc):
+                    seed.add(fn.name)
+    F = {n: [] for n in seed}
+    SEEDS = seed
     changed = True
     while changed:
         changed = False
         for rel, fn, parents in fns:
-            if fn.name in F and fn.name not in SEED:
+            if fn.name in F and fn.name not in SEEDS:
                 continue
             for c in ast.walk(fn):
                 if isinstance(c, ast.Call) and _callee_name(c) in F and _callee_name(c) != fn.name:
@@ -73,7 +81,7 @@ def scan():
                         cur = parents[cur]
                     if parents.get(cur) is not fn:
                         continue
-                    if not _protected(c, fn, parents):
+                    if not _protected(c, fn, parents, exc):
                         if fn.name not in F:
                             F[fn.name] = []
                             changed = True
